@@ -334,6 +334,12 @@ theorem gen_mode_strings :
 theorem gen_translator_interfaces :
     Olla.Gen.Profiles.translatorPassthroughCapable = true ∧ Olla.Gen.Profiles.translatorErrorWriter = true := by decide
 
+/-- The glue in front of the decision: whatever `max_message_size` a configuration file carries (0 = "use the
+    default" included), `config.Load` hands the handler the `enabled` and `passthrough_enabled` the file says
+    (a finite table, regenerated on every run). -/
+theorem gen_loaded_translator_section_faithful :
+    Olla.Gen.Profiles.loadedTranslatorSection.all (fun r => r.2.2.2.1 && r.2.2.2.2.1 == r.1 && r.2.2.2.2.2 == r.2.1) = true := by decide
+
 /-- The inspector chain derives no platform filter for the Anthropic route: the "endpoints after
     filtering" are the healthy endpoints that serve the model, of whatever type. -/
 theorem gen_anthropic_route_unfiltered : Olla.Gen.Profiles.anthropicRouteSupportedBy = [] := by decide
